@@ -11,6 +11,7 @@ import (
 	"hash/fnv"
 	"os"
 	"path/filepath"
+	"runtime"
 	"runtime/debug"
 	"sort"
 	"strings"
@@ -47,6 +48,11 @@ type Prop[C any] struct {
 	// up to Retries times and counts as failing if any run fails. Before the
 	// first failure every generated case is run once.
 	Retries int
+	// HangAfter > 0: Run is executed on its own goroutine and a case that has not returned after
+	// this long is a failure ("the library call did not return": a lock left held, an endless
+	// loop) - a process-poisoning one, since the goroutine cannot be stopped. For checks whose
+	// cases take micro- to milliseconds; scheduler-driven modes detect hangs themselves.
+	HangAfter time.Duration
 }
 
 // runRetry runs the case up to n times and returns the first failure.
@@ -186,7 +192,32 @@ func safeRun[C any](p Prop[C], c C) (out Outcome, err error) {
 			err = fmt.Errorf("panic: %v\n%s", r, debug.Stack())
 		}
 	}()
-	out, err = p.Run(c)
+	if p.HangAfter > 0 {
+		type res struct {
+			out Outcome
+			err error
+		}
+		done := make(chan res, 1)
+		go func() {
+			defer func() {
+				if r := recover(); r != nil {
+					done <- res{Outcome{}, fmt.Errorf("panic: %v\n%s", r, debug.Stack())}
+				}
+			}()
+			o, e := p.Run(c)
+			done <- res{o, e}
+		}()
+		select {
+		case r := <-done:
+			out, err = r.out, r.err
+		case <-time.After(p.HangAfter):
+			buf := make([]byte, 1<<16)
+			buf = buf[:runtime.Stack(buf, true)]
+			return Outcome{}, Poison(fmt.Errorf("the case did not return within %v: a library call hangs (a lock left held by an earlier call, an endless loop)\ngoroutines:\n%s", p.HangAfter, trunc(string(buf), 6000)))
+		}
+	} else {
+		out, err = p.Run(c)
+	}
 	if err != nil && strings.HasPrefix(err.Error(), "harness:") {
 		// the harness could not run the case (no socket, sink starved by a busy machine, ...):
 		// never a verdict about the code under test; counted, and the driver reports the run
